@@ -32,8 +32,14 @@ Oracle (independent of the model): preview dump == working tree dump after
     exactly as before; a clean transform applies.  The same is run with lazily
     registered trans-ids (no model) to cover `_add_tree_children`.
 
-Findings are reported with a family computed from the concrete discrepancy
-(see `_classify`).
+Findings: six defect families found while this check was built (preview reads
+the base tree at the preview path; preview path bound to a removed sibling;
+GitPreviewTree.is_versioned of a new entry; git index not updated for children
+of renamed directories / version-only entries; by_parent()[id] KeyError in
+resolvers; git duplicate-directories cancel_creation) were repaired by fix:
+commits in /repo and are plain violations if they return (corpus/C14 holds one
+minimal case each, run first).  One family is a committed known finding and is
+the only one `_classify` names: preview-extras-lists-deleted-entry.
 
 Generator limits (outside what merge / revert / build_tree can produce; seen to
 crash resolvers with DuplicateKey / ValueError / NoFinalPath and kept out of the
@@ -842,46 +848,15 @@ def _under(p, prefixes):
 
 def _classify(fmt, d, m, res=None, facts=None):
     """family of one preview-vs-applied discrepancy `d` = (path, field, preview value, applied value),
-    from the concrete discrepancy and the model's account of the same case (m = parsed model reply, or None)."""
+    computed from the concrete discrepancy.  Only the committed known finding has a family; every
+    other discrepancy (including the defects repaired by the fix: commits, should they return) is a
+    plain violation."""
     p, field, pv, av = d
     if field == "presence" and av is None and res is not None and p in res.get("preview_enum", []) \
             and p not in res.get("preview", {}):
         # extras() yields the path of an entry whose contents are deleted and which is unversioned,
         # while kind()/is_versioned() of the same preview tree say it does not exist
         return "preview-extras-lists-deleted-entry"
-    if field == "exec" and isinstance(pv, str) and pv.startswith("E:") and facts is not None and not facts["exec_by_tree"] \
-            and res is not None and (res["before"].get(p) or [None])[0] != "file":
-        # is_executable(path) asks the base tree about a path that is not a file there
-        return "preview-reads-base-tree-at-preview-path"
-    if res is not None and facts is not None and field in ("data", "exec") and p in res.get("after", {}):
-        kind = res["after"][p][0]
-        b = res["before"].get(p)
-        by_tree = (facts["data_bzr"] or fmt == "git") if field == "data" else facts["exec_by_tree"]
-        if field == "data":
-            base_answer = b[1] if (b is not None and b[0] == kind) else "!"
-        else:
-            base_answer = b[2] if (b is not None and b[0] == "file") else False
-        if not by_tree and pv != av and (pv == base_answer or (isinstance(pv, str) and pv.startswith("E:") and base_answer is False)):
-            # the preview tree answers with what the *base* tree has at the preview path
-            # (an exception if it has no such file there), the applied entry came from elsewhere
-            return "preview-reads-base-tree-at-preview-path"
-    if m is not None and "preview" in m:
-        mp, ma = _norm_model(fmt, m["preview"]), _norm_model(fmt, m["applied"])
-        if _under(p, m["shadowed"]):
-            # a removed, unversioned entry has the same final name as an existing one below the same directory
-            return "preview-path-binds-removed-sibling"
-        if field in ("data", "exec") and p in mp and p in ma:
-            i = FIELDS.index(field)
-            if mp[p][i] != ma[p][i] and ma[p][i] == av:
-                # the entry has no new contents and sits at another path than in the base tree:
-                # the preview tree reads the base tree at the preview path
-                return "preview-reads-base-tree-at-preview-path"
-        if fmt == "git" and field == "versioned" and p in mp and p in ma and ma[p][3] == "?" and mp[p][3] == pv:
-            # _generate_index_changes does not cover this entry (child of a renamed directory / version_file only):
-            # the index after apply differs from final_is_versioned
-            return "git-apply-index-misses-entry"
-    if fmt == "git" and field == "versioned" and pv == "E:AttributeError":
-        return "git-preview-is-versioned-new-entry"
     return None
 
 
@@ -944,12 +919,6 @@ def check_case(ctx, case, res, reply, flags):
         fam = None
         tb = res.get("resolve_tb", "")
         fr = res.get("resolve_frame", "")
-        if r == "crashed:KeyError" and ("by_parent[old_parent]" in fr or "self.by_parent()[dir_id]" in fr):
-            # _reparent_transform_children / _get_potential_orphans subscript by_parent() with an id that has no children (any more)
-            fam = "resolver-by-parent-keyerror"
-        if r == "crashed:KeyError" and fmt == "git" and fr.startswith("cancel_creation:") and "_new_contents" in fr:
-            # resolve_duplicate (two directories, no versioned directories): cancel_creation of a directory that is not new
-            fam = "git-duplicate-directories-cancel-creation"
         ctx.violation(cid, "resolve_conflicts raised %s instead of returning or raising MalformedTransform (conflicts %s) in %s"
                       % (r[8:], res.get("conf0"), fr or (tb.strip().splitlines()[-1] if tb else "")), family=fam)
         if res.get("after") is not None and res["after"] != before:
